@@ -1,6 +1,7 @@
 package main
 
 import (
+	"fmt"
 	"go/constant"
 	"go/token"
 	"go/types"
@@ -344,6 +345,7 @@ func runC16(w *World, r *Report) {
 	r.Min("R3", 4)
 	c16ExtraExportPaths(w, r)
 	c16MoreExportPaths(w, r)
+	c16PooledObjectsDoNotOutliveRelease(w, r)
 	r.Min("R4", 9)
 }
 
@@ -544,5 +546,48 @@ func c16MoreExportPaths(w *World, r *Report) {
 			}
 		}
 		r.Check(ok && n == 1, "R2", "MD5Hasher.HashBytes/every-input-is-digested", hb.Pos(), "the hasher has one return, the hex digest of its input, for every input (an empty value is exported as the digest of the empty string, not in clear)")
+	}
+}
+
+// c16PooledObjectsDoNotOutliveRelease: the JSON parser and arena come from
+// pools (`p := pool.Get(); defer pool.Put(p)`); everything parsed with p lives
+// in p's buffers and is overwritten by the next user of p. So a function that
+// releases a pooled object with a deferred Put must not hand back a pointer,
+// slice or map that derives from it: a concurrent obfuscation would rewrite the
+// document under the walk and values of one document would surface in another.
+func c16PooledObjectsDoNotOutliveRelease(w *World, r *Report) {
+	n := 0
+	for _, f := range w.lunarFns {
+		if f.Origin() != nil || !strings.HasPrefix(fnPkgPath(f), "lunar/engine/utils/obfuscation") {
+			continue
+		}
+		for _, b := range f.Blocks {
+			for _, in := range b.Instrs {
+				d, ok := in.(*ssa.Defer)
+				if !ok || !isCallTo(d, "ParserPool).Put", "ArenaPool).Put", "sync.Pool).Put") || len(d.Call.Args) < 2 {
+					continue
+				}
+				n++
+				pooled := d.Call.Args[1]
+				var escapes []string
+				for i := 0; i < f.Signature.Results().Len(); i++ {
+					t := f.Signature.Results().At(i).Type()
+					switch t.Underlying().(type) {
+					case *types.Pointer, *types.Slice, *types.Map:
+					default:
+						continue
+					}
+					for _, alt := range ReturnAlts(f, i) {
+						if Derives(alt.Val, func(x ssa.Value) bool { return x == pooled }) {
+							escapes = append(escapes, fmt.Sprintf("result #%d at %s", i, w.Pos(posOf(alt.Ret))))
+						}
+					}
+				}
+				r.Check(len(escapes) == 0, "R2", "pooled-object-released-after-last-use/"+shortFn(fnID(f))+"/"+Path(d.Call.Args[0]), posOf(d), "nothing that lives in the pooled object's buffers is returned from the function that releases it with a deferred Put (%v)", escapes)
+			}
+		}
+	}
+	if n < 2 {
+		r.Undec("R2", "pooled-object-released-after-last-use", token.NoPos, "expected the parser and arena pool releases, found %d", n)
 	}
 }
